@@ -61,7 +61,125 @@ pub open spec fn mul128_rows_ok(t: &Mul128) -> bool {
     forall|m: int, k: int, n: int| 0 <= m < 65536 && 0 <= k < 4 && 0 <= n < 16 ==> #[trigger] m128_entry_ok(t@[m], k, n, m as u16)
 }
 // the one skew table all engines share; its *content* is pinned by the table contracts (or N-TABLES)
-pub uninterp spec fn skew_spec() -> Seq<u16>;
+// SKEW from first principles, mirroring what `initialize_skew` computes (only the field primitives and the LOG definition):
+//   skew_L(x)        = LOG[x]
+//   skew_temp(m, b)  = temp[b] at the start of outer iteration m (b >= m); skew_nrm(m) = the normaliser stored into temp[m]
+//   skew_xor(m, x, n)= XOR of skew_temp(m, k) over k in m..n with bit k+1 of x set
+//   skew_raw(j)      = un-logged entry j: with m = index of the lowest zero bit of j, skew_xor(m, j, 15) (0 when m >= 15, i.e. j = 32767)
+pub open spec fn skew_L(x: u16) -> u16 { log_table_spec()[x as int] }
+pub open spec fn skew_temp(m: nat, b: int) -> u16
+    decreases m, 0int
+{
+    if m == 0 { (1u16 << ((b + 1) as u16)) as u16 }
+    else {
+        let t = skew_temp((m - 1) as nat, b);
+        gf_mul_log(t, add_mod_spec(skew_L(t ^ 1), skew_nrm((m - 1) as nat)))
+    }
+}
+pub open spec fn skew_nrm(m: nat) -> u16
+    decreases m, 1int
+{
+    let t = skew_temp(m, m as int);
+    (65535 - skew_L(gf_mul_log(t, skew_L(t ^ 1)))) as u16
+}
+pub open spec fn skew_xor(m: nat, x: u16, n: int) -> u16
+    decreases n
+{
+    if n <= m { 0 } else { skew_xor(m, x, n - 1) ^ (if bit(x, n) { skew_temp(m, n - 1) } else { 0u16 }) }
+}
+// index of the lowest zero bit of j at or above position k (16 if there is none)
+pub open spec fn lowzero(j: u16, k: int) -> int
+    decreases 16 - k
+{
+    if k >= 16 || !bit(j, k) { k } else { lowzero(j, k + 1) }
+}
+pub open spec fn skew_raw(j: u16) -> u16 {
+    let m = lowzero(j, 0);
+    if 0 <= m < 15 { skew_xor(m as nat, j, 15) } else { 0 }
+}
+#[verifier::opaque]
+pub open spec fn skew_spec() -> Seq<u16> { Seq::new(65535, |j: int| skew_L(skew_raw(j as u16))) }
+
+// "the lowest zero bit of j is bit m", in mask form
+pub open spec fn lzmask(j: u16, m: int) -> bool {
+    j & (((1u16 << ((m + 1) as u16)) - 1) as u16) == ((1u16 << (m as u16)) - 1) as u16
+}
+pub proof fn lemma_lowzero_ge(j: u16, k: int)
+    requires 0 <= k <= 16
+    ensures k <= lowzero(j, k) <= 16
+    decreases 16 - k
+{
+    if k < 16 && bit(j, k) { lemma_lowzero_ge(j, k + 1); }
+}
+pub proof fn lemma_lz_aux(j: u16, k: int, m: int)
+    requires 0 <= k <= m <= 14, j & (((1u16 << (k as u16)) - 1) as u16) == ((1u16 << (k as u16)) - 1) as u16
+    ensures lowzero(j, k) == m <==> lzmask(j, m)
+    decreases m - k
+{
+    let kk = k as u16; let mm = m as u16; let m1 = (m + 1) as u16; let k1 = (k + 1) as u16;
+    if k == m {
+        assert((j & (((1u16 << m1) - 1) as u16) == ((1u16 << mm) - 1) as u16) <==> ((j >> kk) & 1 != 1)) by (bit_vector)
+            requires kk == mm, mm <= 14, m1 == mm + 1, j & (((1u16 << kk) - 1) as u16) == ((1u16 << kk) - 1) as u16;
+        if bit(j, k) { lemma_lowzero_ge(j, k + 1); }
+    } else {
+        if bit(j, k) {
+            assert(j & (((1u16 << k1) - 1) as u16) == ((1u16 << k1) - 1) as u16) by (bit_vector)
+                requires kk < 14, k1 == kk + 1, (j >> kk) & 1 == 1, j & (((1u16 << kk) - 1) as u16) == ((1u16 << kk) - 1) as u16;
+            lemma_lz_aux(j, k + 1, m);
+        } else {
+            assert(!(j & (((1u16 << m1) - 1) as u16) == ((1u16 << mm) - 1) as u16)) by (bit_vector)
+                requires kk < mm, mm <= 14, m1 == mm + 1, (j >> kk) & 1 != 1;
+        }
+    }
+}
+pub proof fn lemma_lz_iff(j: u16, m: int)
+    requires 0 <= m <= 14
+    ensures lowzero(j, 0) == m <==> lzmask(j, m)
+{
+    assert(j & (((1u16 << 0u16) - 1) as u16) == ((1u16 << 0u16) - 1) as u16) by (bit_vector);
+    lemma_lz_aux(j, 0, m);
+}
+// skew_xor only looks at bits m+1..=n
+pub proof fn lemma_xor_agree(m: nat, a: u16, b: u16, n: int)
+    requires n <= 15, forall|k: int| m < k <= n ==> bit(a, k) == bit(b, k)
+    ensures skew_xor(m, a, n) == skew_xor(m, b, n)
+    decreases n
+{
+    if n > m { lemma_xor_agree(m, a, b, n - 1); }
+}
+pub proof fn lemma_xor_zero(m: nat, a: u16, n: int)
+    requires n <= 15, forall|k: int| m < k <= n ==> !bit(a, k)
+    ensures skew_xor(m, a, n) == 0
+    decreases n
+{
+    if n > m { lemma_xor_zero(m, a, n - 1); assert(0u16 ^ 0u16 == 0u16) by (bit_vector); }
+}
+// the inner assignment of initialize_skew: entry j + 2^(i+1) is entry j xor temp[i]
+pub proof fn lemma_xor_step(m: nat, j: u16, i: int, n: int)
+    requires m <= i < n <= 15, j < (1u16 << ((i + 1) as u16))
+    ensures skew_xor(m, (j + (1u16 << ((i + 1) as u16))) as u16, n) == skew_xor(m, j, n) ^ skew_temp(m, i)
+    decreases n
+{
+    let i1 = (i + 1) as u16; let nn = n as u16;
+    let s = 1u16 << i1;
+    let j2 = (j + s) as u16;
+    let t = skew_temp(m, i);
+    if n == i + 1 {
+        assert(((j + (1u16 << i1)) as u16 >> i1) & 1 == 1 && (j >> i1) & 1 != 1) by (bit_vector) requires i1 <= 15, j < (1u16 << i1);
+        assert forall|k: int| m < k <= i implies bit(j2, k) == bit(j, k) by {
+            let kk = k as u16;
+            assert(((j + (1u16 << i1)) as u16 >> kk) & 1 == (j >> kk) & 1) by (bit_vector) requires i1 <= 15, kk < i1, j < (1u16 << i1);
+        }
+        lemma_xor_agree(m, j2, j, i);
+        let a = skew_xor(m, j, i);
+        assert(a ^ t == (a ^ 0u16) ^ t) by (bit_vector);
+    } else {
+        lemma_xor_step(m, j, i, n - 1);
+        assert(((j + (1u16 << i1)) as u16 >> nn) & 1 != 1 && (j >> nn) & 1 != 1) by (bit_vector) requires i1 < nn, nn <= 15, j < (1u16 << i1);
+        let a = skew_xor(m, j, n - 1);
+        assert((a ^ t) ^ 0u16 == (a ^ 0u16) ^ t) by (bit_vector);
+    }
+}
 pub open spec fn ok_SKEW(t: &Box<Skew>) -> bool { t@ == skew_spec() }
 // LOG_WALSH = Walsh-Hadamard transform of the LOG table with entry 0 cleared
 pub open spec fn log_walsh_spec() -> Seq<u16> { crate::vspec::walsh::wht_ref(log_table_spec().update(0, 0u16)) }
